@@ -497,8 +497,17 @@ func TestVerifC12Views(t *testing.T) {
 		for j := 0; j < ni; j++ {
 			is = append(is, string([]byte{"if"[r.Intn(2)], "cuhgCUGcuh"[r.Intn(10)]}))
 		}
-		// views
 		var vs []string
+		if gen == "shared" { // two instruments of one type renamed to the same (case-normalised) stream
+			if ni < 2 {
+				ni = 2
+				is = append(is, is[0])
+			}
+			is[1] = is[0]
+			f := []string{"-", "a1", "a12", "d2"}[r.Intn(4)]
+			vs = append(vs, "n0/-/r0/"+f+"/-", "n1/-/"+[]string{"r0", "R0"}[r.Intn(2)]+"/-/-")
+		}
+		// views
 		nv := 0
 		if r.Intn(4) != 0 {
 			nv = 1 + r.Intn(4)
@@ -534,7 +543,7 @@ func TestVerifC12Views(t *testing.T) {
 				v.filter = string(f)
 			}
 			if r.Intn(2) == 0 {
-				v.agg = string("DxxsleebD"[r.Intn(9)])
+				v.agg = string("DxxslebbeD"[r.Intn(10)])
 				for j := 0; j < ni; j++ {
 					if !v.matches(j, is[j][1]) {
 						continue
@@ -666,6 +675,8 @@ func TestVerifC12Views(t *testing.T) {
 	for i := 0; i < n; i++ {
 		if i%8 == 7 {
 			genCase("ovf-first")
+		} else if i%16 == 3 {
+			genCase("shared")
 		} else {
 			genCase("rnd")
 		}
